@@ -45,7 +45,9 @@ GRAFTS = ["SGD", "RMSPROP_NORMALIZED", "ADAGRAD", "RMSPROP"]
 # low-rank packed roots (compression_rank r: statistics of dimension > |r|+2 are packed into dim x (|r|+2), smaller ones take the
 # full root), frequent directions (sketch updated from the previously stored packed preconditioner)
 VARIANTS = [
-    {"variant": {"lobpcg": 1}, "shapes": [[6, 7], [8]], "block": 8},
+    # (6,8): the 6x6 statistic is padded to max_size 8 (LOBPCG then reports error 1: always rejected), the 8x8 one has full rank
+    # after two O(1) steps (error ~1e-6: accepted); (8,): rank-deficient 8x8 statistic (error ~0.2)
+    {"variant": {"lobpcg": 1}, "shapes": [[6, 8], [8]], "block": 8},
     {"variant": {"rank": 1}, "shapes": [[6, 7], [6, 3]], "block": 8},
     {"variant": {"rank": -1}, "shapes": [[7, 6], [4]], "block": 8},
     {"variant": {"rank": 2}, "shapes": [[6, 5], [7]], "block": 8},
@@ -121,7 +123,10 @@ def gen_tasks(tier, seed):
         for mi, mode in enumerate(MODES):
             for vi, v in enumerate(VARIANTS):
                 k = mi * len(VARIANTS) + vi + seed
-                vgrid.append((mode, THRS[(k + vi) % 4] if (k % 3) else 0.1, EPSS[k % 3], [1, 2, 1, 3][(k + mi) % 4], v, GRAFTS[k % len(GRAFTS)]))
+                thr = THRS[(k + vi) % 4] if (k % 3) else 0.1
+                if "lobpcg" in v["variant"]:
+                    thr = [0.1, 1e30][(mi + seed) % 2]      # thresholds at which LOBPCG roots are accepted as well as rejected
+                vgrid.append((mode, thr, EPSS[k % 3], [1, 2, 1, 3][(k + mi) % 4], v, GRAFTS[k % len(GRAFTS)]))
     else:
         for mode in MODES:
             for v in VARIANTS:
@@ -189,6 +194,20 @@ def _builtin_corpus():
                   "defaults": False, "corpus": "d5_sharded_nan",
                   "histories": [{"kinds": ["ok", "ok", "nan1", "ok"], "target": "p0", "gseed": 0},
                                 {"kinds": ["ok", "ok", "nan", "ok"], "target": "p0", "gseed": 0}]})
+    # da82164 (D25): frequent directions reported error 0 for a NaN sketch (one NaN gradient entry at step 2)
+    for mode in MODES:
+        t.append({"kind": "ds", "mode": mode, "thr": 0.1, "eps": 1e-6, "eigh": False, "pi": 1, "T": T, "shapes": [[6, 7]],
+                  "block": 8, "graft": "RMSPROP_NORMALIZED", "variant": {"fd": 1}, "ndev": 2 if mode == "pmapq" else None,
+                  "npjit": 1 if mode == "sharded" else None, "defaults": False, "corpus": "d25_c03_fd_nan_error_zero",
+                  "histories": [{"kinds": ["ok", "ok", "nan1", "ok"], "target": "all", "gseed": 0},
+                                {"kinds": ["ok", "pinf", "ok", "ok"], "target": "all", "gseed": 1}]})
+    # low-rank root, matrix_epsilon = 0, singular statistics (rank-1 leaf): Inf/NaN packed root with a tiny reported error
+    for mode in MODES:
+        t.append({"kind": "ds", "mode": mode, "thr": 0.1, "eps": 0.0, "eigh": False, "pi": 1, "T": T, "shapes": [[7]],
+                  "block": 8, "graft": "RMSPROP_NORMALIZED", "variant": {"rank": 2}, "ndev": 2 if mode == "pmapq" else None,
+                  "npjit": 1 if mode == "sharded" else None, "defaults": False, "corpus": "c03_lowrank_eps0_nonfinite_root",
+                  "histories": [{"kinds": ["ok"] * T, "target": "all", "gseed": 0},
+                                {"kinds": ["zero", "ok", "rank1", "ok"], "target": "all", "gseed": 1}]})
     return t
 
 
